@@ -18,7 +18,7 @@ def run(tier, seed):
     rng = random.Random(seed * 7919 + 13)
     quick = tier != 'thorough'
     items, twins_ast = [], []
-    n = 90 if quick else 400
+    n = 90 if quick else 220
     for i in range(n):
         s = rng.randrange(1 << 30)
         p, src, twin, tsrc = genprog.gen_macro_program(s)
